@@ -88,6 +88,9 @@ class FakeArr:
             n = n * s
         return FakeArr((n,))
 
+    def copy(self):
+        return FakeArr(self.shape)
+
 
 class FakeDF:
     def __init__(self, rows, cols):
@@ -95,6 +98,9 @@ class FakeDF:
 
     @property
     def values(self):
+        return FakeArr((self.rows, self.columns.width))
+
+    def to_numpy(self, *a, **k):
         return FakeArr((self.rows, self.columns.width))
 
 
